@@ -3,6 +3,7 @@ import os, shutil, subprocess
 from concurrent.futures import ThreadPoolExecutor
 from . import common as C
 from . import c01
+from . import c18
 
 
 def runcli(cli, args, cwd=None, timeout=120):
@@ -29,10 +30,10 @@ def run(tier, seed, replay=None):
                 "library's answers; (B) mpq extract / validate on archives with hostile names and with files that no longer read: exit status, error count and written files against "
                 "the model; mpq list / info against Archive::list / get_info; (C) every sub-command of every format family that takes an input file, on empty, random, "
                 "truncated and bit-flipped inputs: never exit 0 on garbage that the library rejects, never die by a signal, and an exit status 0 of a converting command means the "
-                "output file exists; non-trivial = a run with a failing or refused entry or a damaged input; distinct = distinct command line and input")
+                "output file exists; (E) the converting sub-commands of m2 / skin / anim / wmo / adt / wdt on valid generated files for every target version: exit 0 means a non-empty output file; mpq create with inputs whose archive names collide exits 0 only if every input comes back; non-trivial = a run with a failing or refused entry or a damaged input; distinct = distinct command line and input")
     res.assumptions = ["the decision logic is modelled (Cli/Outcome.v) on top of the library's answers, which are taken from the library itself (Archive::read_file via the harness)",
                        "for the non-MPQ families the rule is behavioural: no model of their parsers is involved here (C13-C18 cover them)"]
-    mok, iok = C.standard_builds(res, "C20", ["impl_mpq", "impl_verify"])
+    mok, iok = C.standard_builds(res, "C20", ["impl_mpq", "impl_verify", "impl_m2", "impl_wmo", "impl_adt", "impl_wdt"])
     if not (mok and iok):
         return res.finish()
     ok, cli, log = C.build_cli()
@@ -314,6 +315,75 @@ def run(tier, seed, replay=None):
             elif (rc == 0) != (m == "0"):
                 res.failing.append(("blp-validate-exit-untruthful", "blp validate exits %d on a %s texture of %dx%d (strict=%s); the validation rules give %s" % (rc, fmt, w, h, strict, "valid" if m == "0" else "invalid"), case))
     stats["blp_validate_runs"] = nval
+    # ================================================================= E: converting sub-commands on valid inputs; create with colliding names
+    gen = [("m2", C.bin_path("impl_m2"), ["model %x %x 3 2 2 4 0 1 2 1 0 1 1 1 1 1 1 1 2 0 2 302" % (v, 5 + v) for v in range(5)]),
+           ("skin", C.bin_path("impl_m2"), ["skin 0 5 8 6 8 2 0", "skin 1 6 8 6 8 2 0"]),
+           ("anim", C.bin_path("impl_m2"), ["anim 1 5 1 40 0", "anim 1 6 0 0 0", "anim 0 5 1 40"]),
+           ("wmo", C.bin_path("impl_wmo"), ["root %s %x 3 2 1 1 2 2 2 0 2 0" % (v, 8 * (3 + i)) for i, v in enumerate(("17", "wotlk", "cata"))]),
+           ("adt", C.bin_path("impl_adt"), ["build %x %x 2 1 1 0 0 2 3" % (v, 5 + v) for v in (0, 3, 5)]),
+           ("wdt", C.bin_path("impl_wdt"), ["wdtwrite " + c18.gen_wdt(r, i) for i in range(2)])]
+    targets = {"m2": ("m2", "convert", ["--version"], ["Vanilla", "TBC", "WotLK", "Cataclysm", "MoP"]), "skin": ("m2", "skin-convert", ["--version"], ["WotLK", "Cataclysm", "MoP"]),
+               "anim": ("m2", "anim-convert", ["--version"], ["WotLK", "MoP", "Legion", "BfA"]), "wmo": ("wmo", "convert", ["--version"], ["Classic", "WotLK", "Cataclysm", "MoP"]),
+               "adt": ("adt", "convert", ["--to"], ["classic", "tbc", "wotlk", "cataclysm"]), "wdt": ("wdt", "convert", None, ["Classic", "TBC", "WotLK", "Cataclysm", "MoP"])}
+    jobsE = []
+    for kind, binp, lines in gen:
+        outs = C.run_lines([binp], lines, shards=1, timeout=600)
+        for k, o in enumerate(outs):
+            hx = None
+            for tok in o.split(" "):
+                if tok.startswith(("W1=", "B1=")):
+                    hx = tok[3:]
+            if hx is None and o and all(c in "0123456789abcdef" for c in o):
+                hx = o
+            try:
+                raw = bytes.fromhex(hx or "")
+            except ValueError:
+                raw = b""
+            if not raw:
+                continue
+            src = os.path.join(base, "e_%s_%d.%s" % (kind, k, {"m2": "m2", "skin": "skin", "anim": "anim", "wmo": "wmo", "adt": "adt", "wdt": "wdt"}[kind]))
+            with open(src, "wb") as f:
+                f.write(raw)
+            fam, sub, opt, vers = targets[kind]
+            for tv in vers:
+                dst = src + "." + tv + ".out"
+                args = [fam, sub, src, dst] + ([opt[0], tv] if opt else ["--from-version", "WotLK", "--to-version", tv])
+                jobsE.append((kind, k, tv, args, dst))
+
+    def doE(j):
+        kind, k, tv, args, dst = j
+        rc, o, e = runcli(cli, args, timeout=120)
+        return rc, (o + e)[-200:], (os.path.getsize(dst) if os.path.exists(dst) else -1)
+    with ThreadPoolExecutor(8) as exr:
+        re_ = list(exr.map(doE, jobsE))
+    stats["convert_runs"] = len(jobsE)
+    stats["convert_exit0"] = sum(1 for rc, _, _ in re_ if rc == 0)
+    for (kind, k, tv, args, dst), (rc, tail, size) in zip(jobsE, re_):
+        res.case("convert %s %d -> %s" % (kind, k, tv), nontrivial=True)
+        case = {"command": " ".join(a.replace(base, "<dir>") for a in args), "exit": rc, "output_bytes": size, "output_tail": tail}
+        if rc < 0 or rc > 128:
+            res.failing.append(("cli-dies-%s-%s" % (args[0], args[1]), "the tool died (signal / timeout) while converting a valid file", case))
+        elif rc == 0 and size <= 0:
+            res.failing.append(("convert-exit0-without-output-%s-%s" % (args[0], args[1]), "%s %s exits 0 but %s" % (args[0], args[1], "wrote no output file" if size < 0 else "wrote an empty output file"), case))
+    # mpq create with two inputs that get the same archive name (other directory, other case): exit 0 only if both come back
+    dupd = os.path.join(base, "dup")
+    for sub_, nm_, dta in (("a", "readme.txt", b"first"), ("b", "README.TXT", b"second one"), ("c", "tile.dat", b"x" * 300), ("d", "tile.dat", b"y" * 300)):
+        os.makedirs(os.path.join(dupd, sub_), exist_ok=True)
+        with open(os.path.join(dupd, sub_, nm_), "wb") as f:
+            f.write(dta)
+    for pair in ((("a", "readme.txt"), ("b", "README.TXT")), (("c", "tile.dat"), ("d", "tile.dat"))):
+        arch = os.path.join(dupd, "t_%s.mpq" % pair[0][0])
+        args = ["mpq", "create", arch] + [x for sd, nm_ in pair for x in ("-a", os.path.join(dupd, sd, nm_))] + ["--with-listfile"]
+        rc, o, e = runcli(cli, args)
+        res.case("create-colliding " + pair[0][1], nontrivial=True)
+        if rc == 0:
+            outd = os.path.join(dupd, "out_" + pair[0][0])
+            runcli(cli, ["mpq", "extract", arch, "-o", outd])
+            have = [open(os.path.join(dp, f), "rb").read() for dp, _, fs in os.walk(outd) for f in fs] if os.path.isdir(outd) else []
+            lost = [nm_ for sd, nm_ in pair if open(os.path.join(dupd, sd, nm_), "rb").read() not in have]
+            if lost:
+                res.failing.append(("create-exit0-drops-input", "mpq create exits 0 but an input does not come back from the archive: %s" % lost,
+                                    {"command": " ".join(a.replace(base, "<dir>") for a in args), "exit": rc, "output_tail": (o + e)[-200:]}))
     res.extra["runs"] = stats
     res.extra["exit0_on_damaged_inputs"] = exit0[:40]
     res.sample({"create_extract": ra[0][6][1:6] if ra else None, "model": mo[0][:120] if mo else None})
